@@ -456,6 +456,7 @@ fn base_scenario(shape: u64) -> Scenario {
         evil: None,
         tp: None,
         key_update_after: None,
+        tls_aes256: false,
     }
 }
 
